@@ -9,7 +9,7 @@ TECHNIQUE = "deterministic simulation: seeded interleavings of peer PDUs (expect
 RULE = (
     "a case = either two real AEs running seeded user scripts with optional reset/stall/thread-stall faults (F1), or one real "
     "AE (acceptor or requestor) against a scripted byte peer that sends expected, unexpected and invalid PDUs, dribbles the "
-    "A-ASSOCIATE-RQ around the ACSE timeout, closes or resets at seeded points while local users abort/release (F2); "
+    "A-ASSOCIATE-RQ around the ACSE timeout, floods, closes or resets at seeded points while local users abort/release, handlers abort/release from pynetdicom's own thread and provider/association threads are stalled (F2); "
     "non-trivial = the provider processed at least one event outside the plain associate/data/release path (abort, collision, "
     "ARTIM, invalid PDU, transport loss) or a local request raced a state change; distinct = distinct run digests"
 )
